@@ -19,7 +19,10 @@ def doc_template(p):
     """a document in the job's spelling with a few symbolic bytes; the marker name may be a symbolic string"""
     tl = p['opts'].get('time-limited-tag-name', [DEFAULTS['time-limited-tag-name']])[0]
     rm = p['opts'].get('removal-marker-tag-name', [DEFAULTS['removal-marker-tag-name']])[0]
-    return ["A", H(p.get('hole', 1), 'txt'), "\n", O(rm, "name='" + p.get('name1', 'x') + "'"), "\nq\n", C(rm), "\nB\n",
+    big = []
+    if p.get('big'):   # ~9 KB of three-byte characters, placed so that byte offsets 4096 and 8192 fall inside a character
+        big = ["あいうえおかきくけこさしすせそたちつてとなにぬねのはひふへほ\n" * 100]
+    return big + ["A", H(p.get('hole', 1), 'txt'), "\n", O(rm, "name='" + p.get('name1', 'x') + "'"), "\nq\n", C(rm), "\nB\n",
             O(tl, "to='2001-01-01 00:00:00'"), "t", C(tl), " ", O(rm, "name='" + p.get('name2', 'y') + "'"), "u", C(rm), "\n",
             O(tl, "to='2010-01-01 00:00:00'"), "\nv\n", C(tl), "\nC", H(p.get('hole', 1), 'nb'), "\n"]
 
@@ -155,6 +158,10 @@ def c20_jobs(tier, seed):
     J('targets from config file and flag', opts=dict(base, **{'removal-marker-target-config': ['t.cfg'], 'removal-marker-target-name': ['x']}), files={'t.cfg': 'y\n'})
     J('config file equals repeated flags (flags side)', opts=dict(base, **{'removal-marker-target-name': ['x', 'y']}))
     J('empty string as target name by flag', opts=dict(base, **{'removal-marker-target-name': ['', 'y']}), name1='')
+    J('config file with final newline, marker with empty name', opts=dict(base, **{'removal-marker-target-config': ['t.cfg']}), files={'t.cfg': 'y\n'}, name1='')
+    J('empty config file, marker with empty name', opts=dict(base, **{'removal-marker-target-config': ['t.cfg']}), files={'t.cfg': ''}, name1='')
+    J('large multi-byte document from stdin', opts=dict(base, **{'removal-marker-target-name': ['x']}), big=1)
+    J('large multi-byte document from stdin, list-json', opts=dict(base, **{'removal-marker-target-name': ['x'], 'list': True, 'list-json': True}), big=1)
     J('empty config file', opts=dict(base, **{'removal-marker-target-config': ['t.cfg']}), files={'t.cfg': ''}, name1_len=2)
     # spelling options and times
     J('custom delimiters and tag names', opts=dict(base, **{'delimiter-start': ['/* <'], 'delimiter-end': ['> */'], 'time-limited-tag-name': ['tl'],
